@@ -37,6 +37,14 @@ type Twin struct {
 func (w *World) newTwin() error {
 	g := w.genOpts // the same genesis, initialised independently (other map iteration order)
 	g.Previous = false
+	if len(w.Opt.TwinNode) > 0 {
+		// another operator: other node-local settings (invariant checks, caches, pruning, ...)
+		g.Node = simnet.NodeOpts{}
+		for k, v := range w.Opt.TwinNode {
+			g.Node[k] = v
+		}
+		w.Label("twin started with other node-local options")
+	}
 	c, err := simnet.NewChain(dbm.NewMemDB(), "", g)
 	if err != nil {
 		return err
